@@ -1,6 +1,7 @@
 #!/usr/bin/env python3
 """Writes seeded/<id>-mN/meta.json from the sub-agent's meta, the confirmation logs and the last sweep."""
-import json, os, re, glob
+import json, os, re, glob, sys
+ONLY = sys.argv[1].split() if len(sys.argv) > 1 else None  # ids to (re)write; default: all (needs the sweep logs of all of them in work/)
 V = "/verif"
 confirm = {}
 for f in glob.glob("/verif/seeded/_confirm/confirm*.log"):
@@ -11,14 +12,18 @@ for f in glob.glob("/verif/seeded/_confirm/confirm*.log"):
 confirm.setdefault("C19-m1", {"suite_pass_fail": "255/0", "demo_rc_with_change": "1", "demo_rc_without": "0", "how": "bash run.sh in the scratch worktree"})
 confirm.setdefault("C19-m2", {"suite_pass_fail": "255/0", "demo_rc_with_change": "1", "demo_rc_without": "0", "how": "bash run.sh in the scratch worktree"})
 sweep = {}
-if os.path.exists(V + "/work/sweep.log"):
-    for l in open(V + "/work/sweep.log", errors="replace"):
+for lf in [V + "/work/sweep.log", V + "/work/sweep-alt.log"]:
+    if not os.path.exists(lf):
+        continue
+    for l in open(lf, errors="replace"):
         p = l.strip().split(" ", 2)
         if len(p) >= 2 and p[0].startswith("C"):
             sweep[p[0]] = {"result": p[1], "first_violation": p[2].strip() if len(p) > 2 else ""}
 NOTES = json.load(open(V + "/lib/seeded_notes.json")) if os.path.exists(V + "/lib/seeded_notes.json") else {}
 for d in sorted(glob.glob(V + "/seeded/C*/")):
     n = os.path.basename(d.rstrip("/"))
+    if ONLY is not None and n not in ONLY:
+        continue
     prop = n.split("-")[0]
     am = {}
     if os.path.exists(d + "meta.json") and not os.path.exists(d + "agent_meta.json"):
